@@ -26,6 +26,7 @@
   crate.
 -/
 import Fsel.Lemmas.Memo
+import Fsel.Props.C13
 
 namespace Fsel.C16
 open Fsel
@@ -325,6 +326,33 @@ theorem composition (cx : EvalCtx) (e? : Option Entry) (F G : Function) (x : Exp
   rw [columnValue]
   simp only [withMemo, Memo.get?, lookup, hinner, hF, Bool.false_eq_true, if_false, argValues]
   rfl
+
+/-! ### YEAR, MONTH, DAY, DAYOFWEEK -/
+
+/-- **the date parts of an instant are its civil date**: whenever the argument reads as a date/time whose
+    first second is `y-mo-d h:mi:s` (any valid civil date of any year — e.g. a literal, by C13's interval
+    theorems, or a column's printed time, by `printed_fields_denote_entry_time`), YEAR, MONTH and DAY return
+    y, mo and d, and DAYOFWEEK the weekday of that day number (1 = Sunday; 1970-01-01 was a Thursday).
+    Rests on `civil_roundtrip` (civil_from_days ∘ days_from_civil = id). -/
+theorem date_parts_spec (today : Int) (arg : Str) (args : List Str) (y : Int) (mo d h mi s : Nat) (b : Int)
+    (hv : validCivil y mo d = true) (hh : h < 24) (hm : mi < 60) (hs : s < 60)
+    (hp : parseDatetime today arg = .ok (secsOf y mo d h mi s) b) :
+    scalarFn today .Year arg args = .ok (.ofInt y) ∧
+    scalarFn today .Month arg args = .ok (.ofInt mo) ∧
+    scalarFn today .Day arg args = .ok (.ofInt d) ∧
+    scalarFn today .DayOfWeek arg args = .ok (.ofInt ((daysFromCivil y mo d + 4) % 7 + 1)) := by
+  obtain ⟨h1, _⟩ := C13.secsOf_split y mo d h mi s hh hm hs
+  refine ⟨?_, ?_, ?_, ?_⟩ <;>
+    simp only [scalarFn, hp, h1, CivilL.civil_roundtrip y mo d hv]
+
+/-- the weekday formula on known dates: 1970-01-01 (day 0) is a Thursday = 5, 2024-02-29 a Thursday too,
+    2023-12-31 a Sunday = 1 -/
+example : ((0 : Int) + 4) % 7 + 1 = 5 ∧ (daysFromCivil 2024 2 29 + 4) % 7 + 1 = 5 ∧ (daysFromCivil 2023 12 31 + 4) % 7 + 1 = 1 := by decide
+
+/-- an argument that is no date gives an empty value, never an error -/
+theorem date_parts_of_garbage (today : Int) (arg : Str) (args : List Str) (hp : parseDatetime today arg = .err) :
+    scalarFn today .Year arg args = .ok (.empty .int) ∧ scalarFn today .DayOfWeek arg args = .ok (.empty .int) := by
+  constructor <;> simp only [scalarFn, hp]
 
 /-- a call never produces anything but a value, a status-2 diagnostic, or the model's own "not modelled" -/
 theorem wrong_kind_total (t : Int) (f : Function) (arg : Str) (args : List Str) :
